@@ -785,6 +785,49 @@ func c20(c *h.Ctx) {
 		jobs = append(jobs, job{100000 + i, false})
 	}
 	h.Par(len(jobs), 32, func(i int) { runC20(c, jobs[i].idx, jobs[i].ev) })
+	c20race(c)
+}
+
+// c20race: building the watchers of a configuration (many include patterns, several watchers) in a taskctl binary
+// built with the race detector; reports whose stacks touch internal/watch are attributed to this property.
+func c20race(c *h.Ctx) {
+	bin := filepath.Join(c.BinDir, "taskctl-race")
+	if _, err := os.Stat(bin); err != nil {
+		c.Count("no_race_build_of_taskctl", 1)
+		return
+	}
+	n := c.N(12, 120)
+	h.Par(n, 8, func(i int) {
+		r := h.NewRand(c.Seed*2741+int64(i), "c20race")
+		dir := caseDir(c, fmt.Sprintf("c20race.%d", i))
+		defer os.RemoveAll(dir)
+		real, _ := filepath.EvalSymlinks(dir)
+		tree := genTree(r, false)
+		tree.create(real + "/tree")
+		ws := gen.OM{}
+		for w := 0; w < r.Range(1, 3); w++ {
+			var inc []interface{}
+			for _, f := range tree.files {
+				inc = append(inc, "tree/"+f)
+			}
+			inc = append(inc, "tree/**/*.log", "tree/*/*.go", "tree/**/*.txt")
+			ws.Set(fmt.Sprintf("w%d", w), gen.OM{{K: "watch", V: inc}, {K: "exclude", V: []interface{}{"tree/**/x1.md"}}, {K: "task", V: "t"}})
+		}
+		cfg := gen.OM{{K: "tasks", V: gen.OM{{K: "t", V: gen.OM{{K: "command", V: []interface{}{"true"}}}}}}, {K: "watchers", V: ws}}
+		h.WriteFile(real+"/tasks.yaml", gen.YAML(cfg))
+		logp := real + "/race.log"
+		home := filepath.Join(c.Work, "emptyhome")
+		os.MkdirAll(home, 0o755)
+		res := h.Proc{Argv: []string{bin, "-c", real + "/tasks.yaml", "list"}, Dir: real, Env: h.BaseEnv(home, "GORACE=halt_on_error=0 exitcode=0 log_path="+logp), Timeout: 60 * time.Second}.Run()
+		c.Eval(1)
+		c.Count("race_build_loads", 1)
+		if crashed, how := res.Crashed(); crashed {
+			c.Violate("watch-crash/"+h.TopFrame(string(res.Stderr)), "taskctl (race build) died while building watchers: "+how, map[string]interface{}{"yaml": gen.YAML(cfg), "stderr": tail(string(res.Stderr), 2000)})
+			return
+		}
+		foldRaceLogs(c, real, []string{"internal/watch/watch.go", "internal/config/watcher.go"})
+		c.Nontrivial(fmt.Sprint("race", i))
+	})
 }
 
 func init() { checks["C20"] = checkDef{"exploration", c20} }
